@@ -193,7 +193,13 @@ pub fn malformed_line(t: &mut Tape) -> (String, &'static str, &'static str) {
             let bad = t.pick(&['q', 'a', 'x', '0', ' ', 'N', 'e', '\'', '/', '%', '{', 'é']);
             let w1 = safe_word(t);
             let w2 = safe_word(t);
-            match t.below(4) {
+            match t.below(9) {
+                // \$ is only the first half of the documented \${ : without the brace it is not an escape
+                4 => (format!("{}{} {}\\${}", lead, prefix_s, w1, w2), "ControlWithoutValidValue", "dollar-escape-without-brace"),
+                5 => (format!("{}{} {}\\$ {}", lead, prefix_s, w1, w2), "ControlWithoutValidValue", "dollar-escape-without-brace"),
+                6 => (format!("{}{} {}\\$", lead, prefix_s, if t.flip() { w1 } else { String::new() }), "ControlWithoutValidValue", "dollar-escape-at-end-of-line"),
+                7 => (format!("{}{} \"{}\\${}\"", lead, prefix_s, w1, w2), "ControlWithoutValidValue", "dollar-escape-without-brace"),
+                8 => (format!("{}{} \"{}\\$", lead, prefix_s, w1), "ControlWithoutValidValue", "dollar-escape-at-end-of-line"),
                 0 => (format!("{}{} {}\\{}{}", lead, prefix_s, w1, bad, w2), "ControlWithoutValidValue", "bad-escape-unquoted"),
                 1 => (format!("{}{} \"{}\\{}{}\"", lead, prefix_s, w1, bad, w2), "ControlWithoutValidValue", "bad-escape-quoted"),
                 2 => (format!("{}{} {}\\", lead, prefix_s, w1), "ControlWithoutValidValue", "trailing-backslash"),
@@ -241,6 +247,22 @@ pub fn malformed_line(t: &mut Tape) -> (String, &'static str, &'static str) {
     }
 }
 
+/// a small well-formed file for include directives (one per thread, written once)
+fn include_fixture() -> String {
+    thread_local! {
+        static PATH: std::cell::RefCell<Option<String>> = std::cell::RefCell::new(None);
+    }
+    PATH.with(|p| {
+        let mut p = p.borrow_mut();
+        if p.is_none() {
+            let f = format!("{}/c08-included-{:?}.ds", crate::hz::scratch_root(), std::thread::current().id()).replace(['(', ')'], "");
+            std::fs::write(&f, "a = set 1\n\nb = set 2\n# nothing\n").expect("write include fixture");
+            *p = Some(f);
+        }
+        p.clone().unwrap()
+    })
+}
+
 fn case_planted(t: &mut Tape, st: &mut Stats) -> Verdict {
     let n = 1 + t.len(60);
     let k = t.below(n); // 0-based position of the malformed line
@@ -250,7 +272,20 @@ fn case_planted(t: &mut Tape, st: &mut Stats) -> Verdict {
     let eol = if crlf { "\r\n" } else { "\n" };
     let mut text = String::new();
     let mut blanked = String::new();
+    // sometimes an earlier line pulls in a (well-formed, 4-line) file: the lines after it keep their own numbers
+    let include_at = if k > 0 && t.chance(1, 5) { Some(t.below(k)) } else { None };
+    if include_at.is_some() {
+        st.class("include-directive-before-the-malformed-line");
+    }
     for i in 0..n {
+        if include_at == Some(i) {
+            let l = format!("!include_files {}", include_fixture());
+            text.push_str(&l);
+            text.push_str(eol);
+            blanked.push_str(&l);
+            blanked.push_str(eol);
+            continue;
+        }
         if i == k {
             text.push_str(&bad);
             text.push_str(eol);
@@ -308,7 +343,7 @@ fn case_planted(t: &mut Tape, st: &mut Stats) -> Verdict {
 pub fn property() -> Property {
     Property {
         id: "C08",
-        rule: "(text) arbitrary texts from a syntax-character soup / hazard strings / random Unicode with LF, CRLF line ends and occasional 20k-char lines: parse_text must return, and when it accepts a text without '!' lines the instruction list must have one entry per line (own splitter) with 1-based line numbers and Empty for blank/# lines; (planted) a well-formed generated script with exactly one malformed line of a documented kind at a random position must be rejected with the matching error kind and that line number, and must parse once that line is blanked. Non-trivial: text with >=2 lines and a syntax character / planted line not first in a script of >2 lines; distinct by text hash",
+        rule: "(text) arbitrary texts from a syntax-character soup / hazard strings / random Unicode with LF, CRLF line ends and occasional 20k-char lines: parse_text must return, and when it accepts a text without '!' lines the instruction list must have one entry per line (own splitter) with 1-based line numbers and Empty for blank/# lines; (planted) a well-formed generated script (one case in five with an !include_files directive of a well-formed file on an earlier line) with exactly one malformed line of a documented kind at a random position must be rejected with the matching error kind and that line number, and must parse once that line is blanked. Non-trivial: text with >=2 lines and a syntax character / planted line not first in a script of >2 lines; distinct by text hash",
         assumptions: &[
             "texts containing lines starting with '!' are excluded from the count/shape check (include/print directives belong to C14)",
             "'blank' is asserted only for lines made of spaces/tabs or starting with '#' after removing spaces/tabs",
@@ -330,7 +365,7 @@ pub fn property() -> Property {
                     Tier::Thorough => Plan::Random { cases: 3_000_000, max_len: 3000 },
                 },
                 case: case_planted,
-                min_classes: &[("unterminated-quote", 1000), ("bad-escape-quoted", 200), ("trailing-backslash", 200), ("quote-in-name", 1000), ("backslash-in-name", 1000), ("bang-alone", 1000), ("unknown-preprocess", 1000)],
+                min_classes: &[("unterminated-quote", 1000), ("bad-escape-quoted", 200), ("trailing-backslash", 200), ("dollar-escape-without-brace", 500), ("dollar-escape-at-end-of-line", 300), ("quote-in-name", 1000), ("backslash-in-name", 1000), ("bang-alone", 1000), ("unknown-preprocess", 1000), ("include-directive-before-the-malformed-line", 5000)],
             },
         ],
         probes: vec![],
